@@ -352,6 +352,14 @@ def op_search(task):
             for after in ("m", " m", "\tm", ";"):
                 for pre in ("", "x ", "\t"):
                     structured.append(pre + head + inner + tail + after)
+    # identifiers that look like keywords (GNU spellings, other case, a keyword as prefix or suffix):
+    # their text is their own, whatever the tokenizer calls them
+    for w in ("__inline__", "__inline", "__restrict", "__restrict__", "__const", "__const__", "__signed__", "__volatile__",
+              "__asm__", "__typeof__", "_Bool", "inline_", "Int", "INT", "iF", "unsigned_", "_int", "elseif", "Return",
+              "structs", "sizeof_", "DEFAULT", "gotoo"):
+        for pre in ("", "x ", "\t"):
+            for after in (";", " y;", "\n"):
+                structured.append(pre + w + after)
     # lexemes the tokenizer diagnoses, at several columns (after a tab, after other tokens)
     if task.get("mode") == "positions":
         for lx in DIAGNOSED:
